@@ -21,9 +21,9 @@ def stable_tests(wt):
     env = dict(os.environ, PYTHONPATH=wt)
     passed = set()
     files = None
-    for attempt in range(4):
+    for attempt in range(3):
         fd, path = tempfile.mkstemp(suffix='.xml'); os.close(fd)
-        cmd = [PY, '-m', 'pytest', '-q', '-p', 'no:cacheprovider', '--timeout=300', '--continue-on-collection-errors', '--junitxml=' + path]
+        cmd = [PY, '-m', 'pytest', '-q', '-p', 'no:cacheprovider', '--timeout=90', '--continue-on-collection-errors', '--junitxml=' + path]
         if files:
             cmd += files
         sh(cmd, cwd=wt, env=env, timeout=3000)
